@@ -115,7 +115,7 @@ def check_pair(I, p, nodes, toks, errs, where):
     return n["id"]
 
 
-OPS = ["next", "next_back", "len", "peek"]
+OPS = ["next", "next_back", "len", "clone", "peek"]
 
 
 def explore_view(args):
@@ -124,7 +124,7 @@ def explore_view(args):
     toks = tokens_of(nodes, tops)
     ex = Explorer(max_steps=600_000)
     sels = [z3.BitVec(f"s{i}", 8) for i in range(K)]
-    nops = 4 if view == "pairs" else 3
+    nops = 5 if view == "pairs" else 4
     for s in sels: ex.add_base(z3.ULT(s, nops))
     rows = []; fns = set()
 
@@ -146,6 +146,11 @@ def explore_view(args):
             op = OPS[W.choose(sels[k])]
             hist.append(op)
             try:
+                if op == "clone":
+                    # continue with a clone of the view: it must denote the same remaining items
+                    cl = I.call("", {"pairs": "<Pairs as Clone>::clone", "flat": "<FlatPairs as Clone>::clone", "tokens": "<Tokens as Clone>::clone"}[view], [ip])
+                    ip = Ptr(Cell(cl))
+                    continue
                 if op == "len":
                     got = I.call("", ln, [ip])
                     if got != len(model): errs.append(f"after {hist}: len() = {got}, the tree has {len(model)} left")
@@ -277,7 +282,7 @@ def run(ctx):
     cov = {"states": paths, "transitions": paths * K, "traces_validated_against_impl": 0, "samples": samples, "exhaustive": True,
            "functions_encoded": sorted(set(f for r in res + res2 for f in r["fns"])),
            "bounds": f"every ordered forest with <= {nmax} nodes and height <= 3, built through the real PairsBuilder::{{new,rule,rule_with,tag,build}} over the input {INPUT!r} (one character per leaf, including a newline and a two-byte character); "
-                     f"every interleaving of {K} operations next/next_back/len(+size_hint)/peek on Pairs, FlatPairs and Tokens chosen by symbolic selectors; per pair: as_rule, as_str, as_span, line_col, into_inner().len(), as_node_tag; Pairs::single, Pairs::as_str",
+                     f"every interleaving of {K} operations next/next_back/len(+size_hint)/clone/peek on Pairs, FlatPairs and Tokens chosen by symbolic selectors; per pair: as_rule, as_str, as_span, line_col, into_inner().len(), as_node_tag; Pairs::single, Pairs::as_str",
            "queries_discharged": sum(r["queries"] for r in res), "solver_time_s": round(sum(r["solver_s"] for r in res), 2), "events": events[:10],
            "explanation": "states = explored interleavings; exhaustive within the stated forest and history bounds"}
     write_evidence(ctx, "model_checking", cov,
